@@ -136,6 +136,16 @@ def run(ctx):
         amounts = ",".join(str(rng.choice([1, 7, 4096, 65536])) for _ in range(rng.randrange(1, 4)))
         rops.append(f"z.read {sched} {amounts} {hx(blob)}")
         want.append(b"".join(members))
+    # members that end exactly at (and one byte around) the reader's 6 + k*16384 input-chunk boundaries
+    for k in (1, 2):
+        for delta in (-1, 0, 1):
+            first = pvlib.gz_exact(6 + 16384 * k + delta, bytes(rng.choice(b"abcdef\n") for _ in range(6 + 16384 * k + delta)))
+            if first:
+                tail = [gen_data(rng, 3000), gen_data(rng, 10)]
+                blob = first[1] + b"".join(gzip.compress(t) for t in tail)
+                for sched in ("-", "1,1,1,1,1,1,100", "16384,5"):
+                    rops.append(f"z.read {sched} 4096,7 {hx(blob)}")
+                    want.append(first[0] + b"".join(tail))
     ra = pvlib.run_lines(impl, rops, env=pvlib.san_env(), timeout=900)
     ctx.count("z.read", len(rops), rops)
     racc = []
